@@ -1,6 +1,6 @@
 CONSTANTS Clients = {1,2,3,4,5,6,7,8,9,10,11,12,13,14,15,16,17,18,19,20,21,22,23,24,25,26,27,28,29,30,31,32,33,34,35,36,37,38,39,40}
-  Services = {"ttx", "vps", "cc", "wss", "x"} Supported = {"ttx", "vps", "cc", "wss"} Base = 1 S = 100000 MaxFrames = 1000000
-  Threaded = TRUE LevelsUsed = {0, 1, 2, 3} Discards = {FALSE, TRUE}
+  Services = {"ttx", "vps", "cc", "wss", "x"} Supported = {"ttx", "vps", "cc", "wss"} Base = 8 S = 100000 MaxFrames = 1000000
+  Threaded = FALSE LevelsUsed = {0, 1, 2, 3} Discards = {FALSE, TRUE}
   Faulty = {1,2,3,4,5,6,7,8,9,10,11,12,13,14,15,16,17,18,19,20,21,22,23,24,25,26,27,28,29,30,31,32,33,34,35,36,37,38,39,40}
 SPECIFICATION TSpec
 INVARIANTS RefCount CursorOK QueueOrder Buffers Delivery InOrder DeviceOpen CanCapture
